@@ -311,6 +311,29 @@ func runVortex(c *mon.Ctx, cfg vtxCfg) {
 		if verr != nil || len(fails) != 0 {
 			continue
 		}
+		// one commitment opened a second time with another challenge: the second opening is an honest proof of the same
+		// statement, and the first proof - already handed out - still is
+		if i%2 == 0 {
+			alpha2 := e.point("generic")
+			var proof2 *vortex.Proof
+			var err2 error
+			if !c.Guard(e.pre+"/OpenLinComb/panic/second-opening", func() string { return e.cls }, func() {
+				st.ps.OpenLinComb(fromE4(alpha2))
+				proof2, err2 = st.ps.OpenColumns(st.sel)
+			}) && err2 == nil {
+				in2 := st.in
+				in2.Alpha, in2.Proof = fromE4(alpha2), proof2
+				var v1, v2 error
+				if !c.Guard(e.pre+"/Verify/panic/second-opening", func() string { return e.cls + "/" + tag }, func() { v2 = e.p.Verify(in2); v1 = e.p.Verify(st.in) }) {
+					c.Check("vortex.Verify/honest", e.pre+"/Verify/honest-rejected/second-opening-of-one-commitment/"+tag, v2 == nil, func() string {
+						return fmt.Sprintf("%s %s: OpenLinComb + OpenColumns called a second time on the same ProverState: %v", e.cls, tag, v2)
+					})
+					c.Check("vortex.Verify/honest", e.pre+"/Verify/honest-rejected/first-proof-after-second-opening/"+tag, v1 == nil, func() string {
+						return fmt.Sprintf("%s %s: the proof produced by the first opening no longer verifies after the second one: %v", e.cls, tag, v1)
+					})
+				}
+			}
+		}
 		other, ok := e.honest("random", "generic", "generic")
 		if !ok {
 			continue
